@@ -2051,4 +2051,87 @@ theorem empty_default_ignored (deck : Arr α) (d : Nat) (s t : Cell α)
 end Pinned
 
 
+/-! ## BoxManager -/
+
+def BoxMgr.Valid (D : Dims) (m : BoxMgr) : Prop :=
+  (∀ b, m.input = some b → b.Valid D) ∧ (∀ b, m.keyword = some b → b.Valid D)
+
+theorem BoxMgr.step_valid (D : Dims) (m m' : BoxMgr) (op : MgrOp) (hm : m.Valid D) (h : m.step D op = some m') :
+    m'.Valid D := by
+  obtain ⟨hi, hk⟩ := hm
+  cases op with
+  | setInput i1 i2 j1 j2 k1 k2 =>
+    simp only [BoxMgr.step] at h
+    cases hb : Box.init D i1 i2 j1 j2 k1 k2 with
+    | none => rw [hb] at h; cases h
+    | some b =>
+      rw [hb] at h
+      simp only [Option.map_some, Option.some.injEq] at h
+      subst h
+      exact ⟨fun b' hb' => by simp only [Option.some.injEq] at hb'; subst hb'; exact init_valid D _ _ _ _ _ _ b hb, hk⟩
+  | setKeyword i1 i2 j1 j2 k1 k2 =>
+    simp only [BoxMgr.step] at h
+    cases hb : Box.init D i1 i2 j1 j2 k1 k2 with
+    | none => rw [hb] at h; cases h
+    | some b =>
+      rw [hb] at h
+      simp only [Option.map_some, Option.some.injEq] at h
+      subst h
+      exact ⟨hi, fun b' hb' => by simp only [Option.some.injEq] at hb'; subst hb'; exact init_valid D _ _ _ _ _ _ b hb⟩
+  | endKeyword =>
+    simp only [BoxMgr.step, Option.some.injEq] at h
+    subst h
+    exact ⟨hi, fun b hb => by cases hb⟩
+  | endInput =>
+    simp only [BoxMgr.step] at h
+    split at h
+    · cases h
+    · simp only [Option.some.injEq] at h
+      subst h
+      exact ⟨(fun b hb => by cases hb), hk⟩
+  | endSection =>
+    simp only [BoxMgr.step] at h
+    split at h
+    · cases h
+    · simp only [Option.some.injEq] at h
+      subst h
+      exact ⟨(fun b hb => by cases hb), hk⟩
+
+theorem BoxMgr.active_valid (D : Dims) (hD : DPos D) (m : BoxMgr) (hm : m.Valid D) : (m.active D).Valid D := by
+  obtain ⟨hi, hk⟩ := hm
+  unfold BoxMgr.active
+  cases h1 : m.keyword with
+  | some b => exact hk b h1
+  | none =>
+    cases h2 : m.input with
+    | some b => exact hi b h2
+    | none => exact global_valid D hD
+
+/-- after any history of BoxManager calls the index list of the active box meets its specification -/
+theorem BoxMgr.index_list_spec (D : Dims) (hD : DPos D) (A : List Bool) (ops : List MgrOp) (m : BoxMgr)
+    (h : ops.foldl (fun (s : Option BoxMgr) op => s.bind fun x => (x.step D op)) (some ⟨none, none⟩) = some m) :
+    IdxSpec A (boxSel D (m.active D)) (indexList D A (m.active D)) := by
+  have key : ∀ (ops : List MgrOp) (s : BoxMgr), s.Valid D →
+      ∀ m, ops.foldl (fun (s : Option BoxMgr) op => s.bind fun x => (x.step D op)) (some s) = some m → m.Valid D := by
+    intro ops
+    induction ops with
+    | nil => intro s hs m hm; simp only [List.foldl_nil, Option.some.injEq] at hm; subst hm; exact hs
+    | cons op ops ih =>
+      intro s hs m hm
+      simp only [List.foldl_cons, Option.bind_some] at hm
+      cases hst : s.step D op with
+      | none =>
+        rw [hst] at hm
+        have : ∀ (l : List MgrOp), l.foldl (fun (s : Option BoxMgr) op => s.bind fun x => (x.step D op)) none = none := by
+          intro l; induction l with
+          | nil => rfl
+          | cons _ _ ih => simp only [List.foldl_cons, Option.bind_none]; exact ih
+        rw [this] at hm; cases hm
+      | some s' =>
+        rw [hst] at hm
+        exact ih s' (BoxMgr.step_valid D s s' op hs hst) m hm
+  have hv := key ops ⟨none, none⟩ ⟨(fun b hb => by cases hb), (fun b hb => by cases hb)⟩ m h
+  exact indexList_spec D A _ (BoxMgr.active_valid D hD m hv)
+
+
 end OpmVerif.FieldProps
